@@ -4,7 +4,7 @@
    multiplexer, timers).  `bbmd_run b es` is the BBMD after ANY history es of arriving frames,
    own broadcasts and 1 s ticks. *)
 From Coq Require Import Permutation.
-From Bac Require Import Base Bip BipFacts IpNet IpNetFacts BipDeliv BipDelivFacts BipDelivTie CascadeTree CascadeNet CascadeFacts CascadeStep.
+From Bac Require Import Base Bip BipFacts IpNet IpNetFacts BipDeliv BipDelivFacts BipDelivTie CascadeTree CascadeNet CascadeFacts CascadeStep BipLife BipLifeFacts.
 Open Scope N_scope.
 
 (* one table entry per address, under any history *)
@@ -263,6 +263,107 @@ Theorem C13_cascade_order_irrelevant : forall n w fuel q log,
 Proof. exact cascade_is_forest. Qed.
 Print Assumptions C13_cascade_order_irrelevant.
 
+(* ---------------------------------------------------------------------------------------------
+   Round 6: ONE REGISTRATION, BOTH ENDS, ANY NUMBER OF RENEWALS (BipLife.v).  `pair_run me rounds s`
+   composes Bip.v's own step functions: per round the device's task fires at its due instant r
+   (foreign_renew; an expiry of _registration_timeout_task due by then fires first: fire_expiry),
+   the frames it addresses to the BBMD go through bbmd_confirmation, the frames the BBMD addresses
+   to the device go through foreign_confirmation d ms later (again after a due expiry), then the
+   BBMD lives through `es` (1 s ticks, any frames).  `inv` = the state register() leaves
+   (C13_register_starts_life); `round_fine` = the answer takes 0 <= d < 30 s, the BBMD sees fewer
+   than T+5 ticks and no other registration / deletion of this address before the next renewal
+   (exactly T ticks lie between two renewals: C13_renewal_before_expiry).  0 < T < 65536: the TTL
+   field of Register-Foreign-Device has 16 bits.
+   After EVERY such sequence of rounds (every prefix is one): status 0, listed with T+5-ticks
+   seconds left, own expiry at least 30 s beyond the next renewal — hence (C13_no_expiry_while_renewing)
+   the expiry never fires while the renewals go on, and (C13_alive_is_served) the BBMD addresses a
+   copy of every broadcast to the device, the device hands it up and distributes its own. *)
+Theorem C13_renewing_device_stays_served : forall me T rounds s d es,
+  (0 < T < 65536)%Z -> inv me T s -> Forall (round_fine me T) (rounds ++ [(d, es)]) ->
+  exists s', pair_run me (rounds ++ [(d, es)]) s = Ok s' /\ alive me T es s'.
+Proof. exact pair_alive. Qed.
+Print Assumptions C13_renewing_device_stays_served.
+
+Theorem C13_no_expiry_while_renewing : forall me T last s, alive me T last s ->
+  exists r, f_renew (p_dev s) = Some r /\
+    forall t, (t < r + 30000)%Z -> fire_expiry t (p_dev s) = p_dev s /\ f_status (fire_expiry t (p_dev s)) = 0%Z.
+Proof. exact no_expiry_while_renewing. Qed.
+Print Assumptions C13_no_expiry_while_renewing.
+
+Theorem C13_alive_is_served : forall me T last s o p now d, alive me T last s ->
+  In (Down (DStation me) (Forwarded o p)) (snd (bbmd_confirmation (p_bbmd s) o DBcast (OrigBroadcast p))) /\
+  foreign_confirmation now (p_dev s) (b_addr (p_bbmd s)) d (Forwarded o p) = Ok (p_dev s, [Up o DBcast p]) /\
+  foreign_indication (p_dev s) DBcast p = Ok [Down (DStation (b_addr (p_bbmd s))) (Distribute p)].
+Proof. exact alive_is_served. Qed.
+Print Assumptions C13_alive_is_served.
+
+Theorem C13_register_starts_life : forall me T f f' b,
+  foreign_register f (b_addr b) T = Ok f' -> NoDup (map fd_addr (b_fdt b)) -> inv me T (mkPair f' b) /\ (0 < T)%Z.
+Proof. exact register_gives_inv. Qed.
+Print Assumptions C13_register_starts_life.
+
+(* T < 65536 is necessary in C13_renewing_device_stays_served: with TTL 65537 (outside the property's 1..300 s) the
+   Register-Foreign-Device frame carries 1, and after one fine round with six ticks the acknowledged device
+   (status 0) is no longer listed *)
+Theorem C13_ttl_over_16_bits_refuted :
+  exists me T f' b d es s',
+    foreign_register (mkForeign (-1) None None None None) (b_addr b) T = Ok f' /\
+    inv me T (mkPair f' b) /\ round_fine me T (d, es) /\ (65536 <= T)%Z /\
+    pair_run me [(d, es)] (mkPair f' b) = Ok s' /\
+    f_status (p_dev s') = 0%Z /\ listed (b_fdt (p_bbmd s')) me = false.
+Proof. exact ttl_over_16_bits_witness. Qed.
+Print Assumptions C13_ttl_over_16_bits_refuted.
+
+(* ... and when the answers stop, the device gives up by itself at the instant the last
+   acknowledgement armed (last ack + (T+30) s: C13_ack_sets_expiry): status -1, nothing accepted,
+   nothing distributed.  (The BBMD's side of the same silence is C13_fdt_served_window.) *)
+Theorem C13_device_expires_after_silence : forall t f e, f_expire f = Some e -> (e <= t)%Z ->
+  f_status (fire_expiry t f) = (-1)%Z /\ f_expire (fire_expiry t f) = None /\
+  (forall now s d a p, f_bbmd f <> None -> exists b, f_bbmd f = Some b /\
+      foreign_confirmation now (fire_expiry t f) s d (Forwarded a p) = Ok (fire_expiry t f, [])) /\
+  (forall p, foreign_indication (fire_expiry t f) DBcast p = Ok []).
+Proof. exact expiry_fires. Qed.
+Print Assumptions C13_device_expires_after_silence.
+
+(* the 1 s tick, entry by entry: the table after a tick is the list of entries with more than one
+   second left, in the same order, each one second older — no entry is skipped or aged twice,
+   whatever is removed next to it *)
+Theorem C13_tick_ages_every_entry : forall t,
+  fdt_tick t = map dec (filter (fun e => 1 <? fd_remain e) t).
+Proof. exact tick_ages_every_entry. Qed.
+Print Assumptions C13_tick_ages_every_entry.
+
+Theorem C13_tick_listed : forall t a,
+  listed (fdt_tick t) a = true <-> exists e, In e t /\ fd_addr e = a /\ 1 < fd_remain e.
+Proof. exact tick_listed. Qed.
+Print Assumptions C13_tick_listed.
+
+(* several devices registered with the same time-to-live between two ticks (any number, any order,
+   any other quiet traffic afterwards): each is listed exactly while fewer than T+5 ticks have passed —
+   they all leave the table in the same tick *)
+Theorem C13_group_expiry : forall srcs b d T es,
+  NoDup (map fd_addr (b_fdt b)) -> NoDup srcs ->
+  (forall s, In s srcs -> Forall (quiet s) es) ->
+  forall s, In s srcs ->
+  listed (b_fdt (bbmd_run (register_all b d T srcs) es)) s = (ticks es <? T + 5).
+Proof. exact group_expiry. Qed.
+Print Assumptions C13_group_expiry.
+
+(* a foreign device never hands an Original-Broadcast-NPDU to its network layer (the copy that counts
+   is its BBMD's Forwarded-NPDU), in any state; what it does hand up as a broadcast is a
+   Forwarded-NPDU from its own BBMD while registered (or a unicast that arrived by broadcast) *)
+Theorem C13_foreign_drops_original_broadcast : forall now f s d p,
+  foreign_confirmation now f s d (OrigBroadcast p) = Ok (f, []).
+Proof. exact foreign_drops_original_broadcast. Qed.
+Print Assumptions C13_foreign_drops_original_broadcast.
+
+Theorem C13_foreign_up_only_from_bbmd : forall now f s d m f' acts src p,
+  foreign_confirmation now f s d m = Ok (f', acts) -> In (Up src DBcast p) acts ->
+  (exists a, m = Forwarded a p /\ src = a /\ f_bbmd f = Some s /\ f_status f = 0%Z) \/
+  (m = OrigUnicast p /\ d = DBcast /\ src = s).
+Proof. exact foreign_up_only_from_bbmd. Qed.
+Print Assumptions C13_foreign_up_only_from_bbmd.
+
 (* non-vacuity *)
 Example C13_window_example :
   let b := mkBbmd (mkA 167837954 47808) [] [] true in
@@ -325,4 +426,38 @@ Proof.
     + intros r l I Hl. destruct l as [|[|[|l]]]; [| | | cbn in Hl; lia];
         cbn in I; repeat (destruct I as [<-|I]; [vm_compute; discriminate|]); contradiction.
   - vm_compute. lia.
+Qed.
+
+(* round 6 non-vacuity: a device registers with TTL 7 (not a divisor of 30), renews five times with
+   answers 0..29.999 s late while two other devices come and go at the BBMD: still alive *)
+Example C13_life_example :
+  let me := mkA 180879400 47808 in
+  let b := mkBbmd (mkA 167837954 47808) [] [mkFdte (mkA 180879401 47808) 30 12] true in
+  let other := BConf (mkA 180879402 47808) (DStation (mkA 167837954 47808)) (RegisterFD 1) in
+  let es := [BTick; BTick; other; BTick; BTick; BTick; BInd DBcast 5; BTick; BTick] in
+  let rounds := [(0, es); (29999, es); (1, es); (250, es); (12000, es ++ [BTick; BTick; BTick])]%Z in
+  exists f' s', foreign_register (mkForeign (-2) None None None None) (b_addr b) 7 = Ok f' /\
+    inv me 7 (mkPair f' b) /\ Forall (round_fine me 7) rounds /\
+    pair_run me rounds (mkPair f' b) = Ok s' /\ f_status (p_dev s') = 0%Z /\
+    f_renew (p_dev s') = Some 35000%Z /\ f_expire (p_dev s') = Some 77000%Z /\
+    find (b_fdt (p_bbmd s')) me = Some (mkFdte me 7 2).
+Proof.
+  cbv zeta. eexists. eexists. split; [reflexivity|]. split.
+  - apply (register_gives_inv _ 7%Z (mkForeign (-2) None None None None)); [reflexivity|].
+    cbn. constructor; [intros []|constructor].
+  - split.
+    + repeat (constructor; [split; [cbn; lia|split; [repeat constructor; cbn; try discriminate; congruence|vm_compute; reflexivity]]|]). constructor.
+    + split; [vm_compute; reflexivity|]. repeat split.
+Qed.
+Example C13_group_example :
+  let b := mkBbmd (mkA 167837954 47808) [] [] true in
+  let srcs := [mkA 180879400 47808; mkA 180879401 47808; mkA 180879402 47808] in
+  NoDup srcs /\ (forall s, In s srcs -> Forall (quiet s) [BTick; BTick; BTick; BTick; BTick; BTick]) /\
+  b_fdt (bbmd_run (register_all b DBcast 1 srcs) [BTick; BTick; BTick; BTick; BTick]) =
+    map (fun s => mkFdte s 1 1) srcs /\
+  b_fdt (bbmd_run (register_all b DBcast 1 srcs) [BTick; BTick; BTick; BTick; BTick; BTick]) = [].
+Proof.
+  cbv zeta. split.
+  - repeat constructor; cbn; intuition discriminate.
+  - split; [intros s _; repeat constructor|]. split; vm_compute; reflexivity.
 Qed.
